@@ -240,3 +240,8 @@ package gzip
 //@ func putWriter
 //@   modifies ghost:closes
 //@   ensures [the_stream_is_terminated_for_every_level] closes == old(closes) + 1
+
+//@ unit constructors_sweep props=C11 nilchecks=on nonnil_params=on filter=`gzip\.DefaultExtFilter$`
+//@ // constructors and helpers that this directive's setup calls but that live outside setup.go: the same safety sweep
+//@ // (index, slice, division, nil-map store, nil dereference, explicit panic) as for the setup code itself
+//@ use @verif/specs/stdlib.spec:stdlib
